@@ -86,6 +86,10 @@ def divAcc (a : Acc α) (n : α) : Acc α :=
     added, the sum is divided by the number of records found -/
 def average (z : α) (found : List (GRec α)) : Acc α :=
   divAcc (found.foldl iadd ⟨z, z, z, [], [], []⟩) ((found.length : Nat) : α)
+
+/-- the other numeric fields `__iadd__` / `__truediv__` treat alike (`num_volume`, `num_local`, `buried`):
+    summed onto the fresh clone's zero, divided by the number of records found -/
+def avgScalar (z : α) (xs : List α) : α := xs.foldl (fun a x => a + x) z / ((xs.length : Nat) : α)
 end
 
 /-! ### the probe of one pair: `NonCovalentlyCoupledGroups.is_coupled_protonation_state_probability` -/
